@@ -172,7 +172,42 @@ def run(tier):
                 j.ok(cid)
     j.sample({"case": cases[10]})
     j.sample({"case": next(e for e in cases if e["call"]["op"] == "order")})
-    cov = {"states": r.distinct, "transitions": r.generated, "traces_validated_against_impl": len(seen),
+    # the argument-shape algebra (ArgShape.tla): every (function, abstract argument, length / pattern / output form)
+    # executed once.  getvector / isvector take the vector arguments C15 speaks about (forms interchangeable, wrong
+    # length rejected) and are JUDGED; the matrix functions are outside the statement: executed, compared, reported
+    import argshape
+    ra = run_tlc("MC_ArgShape", "ArgShape", timeout=300)
+    explored = {}
+    n_shape = 0
+    for e in ra.json:
+        if "call" not in e:
+            continue
+        c = e["call"]
+        for variant in (0, 1):
+            got, arg, res = argshape.execute(c, variant)
+            mode = argshape.agrees(e["expect"], got, arg, res)
+            n_shape += 1
+            judged = c["fn"] in ("getvector", "isvector")
+            if not judged:
+                if mode:
+                    explored["%s;%s;%s" % (c["fn"], c["a"].get("k"), mode)] = explored.get("%s;%s;%s" % (c["fn"], c["a"].get("k"), mode), 0) + 1
+                continue
+            if e["expect"]["k"] == "unspec":
+                continue
+            a = c["a"]
+            feat = "%s;len=%s;dim=%s%s;%s" % (a["k"], a.get("n", "%sx%s" % (a.get("r", ""), a.get("c", "")) if "r" in a else "-"), c["dim"],
+                                             (";out=" + c["out"]) if "out" in c else "", "int" if variant else "float")
+            cid = (c["fn"], a["k"], e["expect"]["k"], c.get("out", ""))
+            if mode:
+                j.fail("%s|%s|%s|%s" % (PID, c["fn"], feat, mode), {"kind": "argshape", "call": c, "expect": e["expect"], "got": {k: v for k, v in got.items() if k != "mro"}}, cid)
+            else:
+                j.ok(cid, nontrivial=a["k"] != "array1")
+    if n_shape < 12000:
+        raise MachineryError("ArgShape export too small: %d" % n_shape)
+    for k_, v_ in sorted(explored.items()):
+        print("EXPLORED (outside the listed properties) argshape %s cases=%d" % (k_, v_))
+    cov = {"states": r.distinct + ra.distinct, "transitions": r.generated + ra.generated, "traces_validated_against_impl": len(seen) + n_shape,
+           "argshape_calls": n_shape, "argshape_theorems_checked_by_tlc": 6, "argshape_explored_mismatches_outside_C15": explored,
            "api_entries": len(names), "exported_base_names_not_in_table": uncovered, "exhaustive": True,
            "checker_cmd": r.cmd,
            "rule": "case = (entry, argument, container form, right/wrong length, element type) | (entry, unit "
